@@ -134,7 +134,10 @@ def main(argv=None):
             info = {"raw": r["out"][-500:]}
         conf["steps"].append(dict(name=step["name"], rc=r["rc"], wall=r["wall"], **{k: info[k] for k in info if k in ("evaluations", "failures", "note")}))
         conf["evaluations"] += int(info.get("evaluations", 0) or 0)
-        if r["rc"] != 0:
+        if r["rc"] != 0 and step.get("violation_on_fail") and "failing" not in info:
+            # the suite itself died (traceback, timeout): undecided, never a violation
+            V.undecided.append(f"native suite {step['name']} did not finish: {(r['err'] or r['out'])[-300:]!r}")
+        elif r["rc"] != 0:
             if step.get("violation_on_fail"):
                 # a native contract check (R mode) failed: this is a finding about the code, handled below
                 V.native_failures = getattr(V, "native_failures", []) + [dict(step=step, result=r, info=info)]
@@ -210,7 +213,7 @@ def main(argv=None):
         for item in nf["info"].get("failing", [{"name": nf["step"]["name"]}]):
             nm = f"{nf['step']['name']}/{item['name']}"
             item = dict(item)
-            item.setdefault("violations", [item])
+            item.setdefault("violations", [dict(item)])
             ob_status[nm] = "refuted"
             ob_detail[nm] = dict(name=nm, status="refuted", model=json.dumps(item, default=repr)[:2000], task=nf["step"]["name"], time=0, native=True, witness=item)
             native_items.append(nm)
